@@ -237,6 +237,19 @@ def run_cases(ck, res, n_cases, n_interval):
             and enga.close(math.cos(bq[2]), math.cos(q[2])) and enga.close(math.sin(bq[2]), math.sin(q[2]))
         if not ok or not (bq[0] >= 0 and 0 <= bq[1] <= math.pi and -math.pi < bq[2] <= math.pi):
             ck.fail('conversion/spherical-roundtrip', 'cartesian_to_spherical(spherical_to_cartesian(q)) != q (mod 2 pi) or out of range', {'q': q}, expected=q, actual=bq)
+        # on the coordinate singularities themselves (origin, polar axis, planes): the helpers are total there, return finite
+        # values in the documented ranges (angle 0 where it is undetermined) and the Cartesian round trip is exact
+        sp = [(0.0, 0.0, 0.0), (0.0, 0.0, 1.5), (0.0, 0.0, -2.25), (1.25, 0.0, 0.0), (0.0, -0.75, 0.0), (-2.0, 0.0, 0.0), (0.0, 1.5, 1.5)][ci % 7]
+        Ps = [enga.col(torch, [v], grad=False) for v in sp]
+        ck.add_case(('conv-singular', str(sp)))
+        for cname, fwd_f, back_f in (('spherical', O.cartesian_to_spherical, O.spherical_to_cartesian), ('cylindrical', O.cartesian_to_cylindrical, O.cylindrical_to_cartesian)):
+            cq = [float(v) for v in fwd_f(*Ps)]
+            rt = [float(v) for v in back_f(*fwd_f(*Ps))]
+            ok_rng = all(math.isfinite(v) for v in cq) and cq[0] >= 0 and (0 <= cq[1] <= math.pi if cname == 'spherical' else -math.pi < cq[1] <= math.pi)
+            if cname == 'spherical':
+                ok_rng = ok_rng and -math.pi < cq[2] <= math.pi
+            if not ok_rng or not all(enga.close(a, b, rel=enga.EXACT) for a, b in zip(rt, sp)):
+                ck.fail(f'conversion/{cname}-on-singularity', f'cartesian_to_{cname} at {sp} returned {cq}; back in Cartesian {rt}', {'p': sp}, expected=list(sp), actual=rt)
         # near (but off) the polar axis, both hemispheres: the round trip must stay exact to rounding there too (a formula
         # that is an identity over the reals but ill-conditioned at the poles, e.g. acos(z / r), is not)
         kx = 2 + ci % 6
